@@ -328,11 +328,11 @@ pub fn gen_v(rng: &mut Rng, depth: usize) -> V {
     }
 }
 
-pub fn gen_universe(rng: &mut Rng) -> Vec<String> {
+pub fn gen_universe(rng: &mut Rng, force_huge: Option<usize>) -> Vec<String> {
     let small = rng.chance(1, 2);
     // one run in forty: a huge universe (the raw table grows to 128..512 buckets)
-    let huge = rng.chance(1, 40);
-    let n = if huge { rng.urange(100, 400) } else if small { rng.urange(1, 3) } else { rng.urange(24, 48) };
+    let huge = rng.chance(1, 40) || force_huge.is_some();
+    let n = if let Some(n) = force_huge { n } else if huge { rng.urange(100, 400) } else if small { rng.urange(1, 3) } else { rng.urange(24, 48) };
     let style = if huge { rng.below(2) } else { rng.below(4) };
     (0..n).map(|i| match (style, i) {
         (_, 0) if rng.chance(1, 4) => String::new(),
@@ -354,7 +354,13 @@ fn gen_cancel(rng: &mut Rng) -> Cancel {
 
 /// Draw a history. `max_len` bounds the number of operations.
 pub fn gen_hist(rng: &mut Rng, max_len: usize) -> HistSc {
-    let uni = gen_universe(rng);
+    // profiles: 1/400 grow-then-drain (the index grows to 128..512 buckets and is then emptied
+    // entry by entry), 3/400 very large objects (1000..2600 entries), otherwise ordinary
+    let profile = rng.below(400);
+    let drain = profile == 0;
+    let large = (1..=3).contains(&profile);
+    let forced = if drain { Some(rng.urange(60, 300)) } else if large { Some(rng.urange(100, 1500)) } else { None };
+    let uni = gen_universe(rng, forced);
     let hash_mode = if rng.chance(1, 2) { "good" } else { *rng.pick(&HASH_MODES) }.to_string();
     let hash_seed = rng.next_u64();
     // swarm: per-run operation weights, a random subset of operations disabled
@@ -362,14 +368,36 @@ pub fn gen_hist(rng: &mut Rng, max_len: usize) -> HistSc {
     // keep the object growing on average: pushes stay enabled
     w[0] = w[0].max(4);
     w[23] = w[23].min(1); // `fresh` (reset) rarely
-    let len = if uni.len() >= 100 { rng.urange(1, 16) } else if rng.chance(1, 10) { rng.urange(1, max_len) } else { rng.urange(1, max_len.min(24)) };
+    let len = if large { rng.urange(1, 6) } else if uni.len() >= 100 || drain { rng.urange(1, 16) } else if rng.chance(1, 10) { rng.urange(1, max_len) } else { rng.urange(1, max_len.min(24)) };
     let regs = if rng.chance(1, 2) { 1 } else { REGISTERS };
     let mut ops = Vec::with_capacity(len);
-    if uni.len() >= 100 {
+    if uni.len() >= 100 || drain {
         // bulk start so that the index is large from the first step
-        let n = rng.urange(uni.len() / 2, uni.len() + 40);
-        let es: Vec<(String, V)> = (0..n).map(|_| (rng.pick(&uni).clone(), if rng.chance(1, 4) { gen_v(rng, 1) } else { V::Null })).collect();
+        let n = if large { rng.urange(1000, 2600) } else if drain { uni.len() + rng.urange(0, uni.len() / 3) } else { rng.urange(uni.len() / 2, uni.len() + 40) };
+        let es: Vec<(String, V)> = (0..n).map(|i| (if drain && i < uni.len() { uni[i].clone() } else { rng.pick(&uni).clone() }, if rng.chance(1, 4) { gen_v(rng, 1) } else { V::Null })).collect();
         ops.push(match rng.below(3) { 0 => Op::FromVec { r: 0, es }, 1 => Op::ExtendEntries { r: 0, es }, _ => Op::FromParse { r: 0, es } });
+        if drain {
+            // empty the object again, entry by entry, from one end, the middle, or key by key
+            let mut left = n;
+            let keep = rng.urange(0, 30);
+            let pattern = rng.below(4);
+            let mut next_key = 0;
+            while left > keep && next_key < uni.len() + 1 {
+                match pattern {
+                    0 => { ops.push(Op::RemoveAt { r: 0, i: 0 }); left -= 1; }
+                    1 => { ops.push(Op::RemoveAt { r: 0, i: left - 1 }); left -= 1; }
+                    2 => { ops.push(Op::RemoveAt { r: 0, i: left / 2 }); left -= 1; }
+                    _ => {
+                        if next_key >= uni.len() { break; }
+                        let k = uni[next_key].clone(); next_key += 1;
+                        ops.push(if rng.chance(1, 2) { Op::Remove { r: 0, k, c: gen_cancel(rng) } } else { Op::RemoveUnique { r: 0, k } });
+                        // (the number of entries removed is unknown to the generator; `left` is only a loop bound here)
+                        left = left.saturating_sub(1);
+                        if next_key + keep / 2 >= uni.len() { break; }
+                    }
+                }
+            }
+        }
     }
     for _ in 0..len {
         let r = rng.usize_below(regs);
@@ -382,7 +410,7 @@ pub fn gen_hist(rng: &mut Rng, max_len: usize) -> HistSc {
             4 => Op::Insert { r, k, v: gen_v(rng, 0), c: gen_cancel(rng) },
             5 => Op::InsertFront { r, k, v: gen_v(rng, 0), c: gen_cancel(rng) },
             6 => Op::Remove { r, k, c: gen_cancel(rng) },
-            7 => Op::RemoveAt { r, i: rng.usize_below(12) },
+            7 => Op::RemoveAt { r, i: match rng.below(4) { 0 => rng.usize_below(4), 1 => rng.usize_below(12), 2 => rng.usize_below(64), _ => rng.usize_below(700) } },
             8 => Op::RemoveUnique { r, k },
             9 => Op::Sort { r },
             10 => Op::FromVec { r, es: gen_entries(rng, &uni, 12) },
@@ -391,7 +419,7 @@ pub fn gen_hist(rng: &mut Rng, max_len: usize) -> HistSc {
             13 => Op::ExtendEntries { r, es: gen_entries(rng, &uni, 8) },
             14 => Op::ExtendPairs { r, es: gen_entries(rng, &uni, 8) },
             15 => Op::ExtendFrom { r, s: rng.usize_below(REGISTERS) },
-            16 => Op::IterMutSet { r, i: rng.usize_below(10), v: gen_v(rng, 0) },
+            16 => Op::IterMutSet { r, i: if rng.chance(3, 4) { rng.usize_below(10) } else { rng.usize_below(300) }, v: gen_v(rng, 0) },
             17 => Op::GetMutSet { r, k, pull: rng.usize_below(4), v: gen_v(rng, 0) },
             18 => Op::GetUniqueMutSet { r, k, v: gen_v(rng, 0) },
             19 => Op::GetOrInsertWith { r, k, v: gen_v(rng, 0) },
@@ -439,11 +467,21 @@ pub fn hist_shrink_candidates(sc: &HistSc) -> Vec<HistSc> {
             Op::Push { v, .. } | Op::PushEntry { v, .. } | Op::PushFront { v, .. } | Op::PushEntryFront { v, .. } | Op::Insert { v, .. } | Op::InsertFront { v, .. } | Op::IterMutSet { v, .. }
             | Op::GetUniqueMutSet { v, .. } | Op::GetOrInsertWith { v, .. } => { if !v.is_simple() { *v = V::Null; changed = true; } }
             Op::FromVec { es, .. } | Op::FromIterEntries { es, .. } | Op::FromIterPairs { es, .. } | Op::FromParse { es, .. } | Op::ExtendEntries { es, .. } | Op::ExtendPairs { es, .. } => {
-                if es.len() > 1 { es.pop(); changed = true; } else if es.iter().any(|e| !e.1.is_simple()) { for e in es.iter_mut() { e.1 = V::Null; } changed = true; }
+                if es.len() > 8 { let h = es.len() / 2; es.truncate(h); changed = true; } else if es.len() > 1 { es.pop(); changed = true; } else if es.iter().any(|e| !e.1.is_simple()) { for e in es.iter_mut() { e.1 = V::Null; } changed = true; }
             }
             _ => {}
         }
         if changed { out.push(HistSc { ops, ..sc.clone() }); }
+        if let Some(es) = op.entries() {
+            if es.len() > 8 {
+                let mut ops = sc.ops.clone();
+                match &mut ops[i] {
+                    Op::FromVec { es, .. } | Op::FromIterEntries { es, .. } | Op::FromIterPairs { es, .. } | Op::FromParse { es, .. } | Op::ExtendEntries { es, .. } | Op::ExtendPairs { es, .. } => { let h = es.len() / 2; es.drain(..h); }
+                    _ => {}
+                }
+                out.push(HistSc { ops, ..sc.clone() });
+            }
+        }
     }
     // shorter key names: rename the i-th distinct key to a short one
     let uni = sc.universe();
